@@ -80,12 +80,20 @@ fn play(cfg: &WorldCfg, sets: &[[AssetInfo; 2]], want_desc: bool, key: u64) -> C
             if i % 4 == 1 {
                 let rec = fw.w.exec(Step {
                     sender: owner.clone(),
-                    call: Call::Factory { msg: haloswap::factory::ExecuteMsg::MigratePair { contract: a.clone(), code_id: if i % 8 == 1 { Some(code) } else { None } } },
+                    call: Call::Factory { msg: haloswap::factory::ExecuteMsg::MigratePair { contract: a.clone(), code_id: match i % 12 { 1 => Some(code), 5 => Some(fw.w.codes.pair_alt), _ => None } } },
                     funds: vec![],
                 });
                 if rec.outcome.is_ok() {
                     classes.push("adm:pair-migrated");
                 }
+            }
+        }
+        // the factory itself is migrated (to its own code) by its chain-level admin
+        if fw.model.pairs.len() % 4 == 1 {
+            let (f, c) = (fw.w.factory.to_string(), fw.w.codes.factory);
+            let rec = fw.w.exec(Step { sender: owner.clone(), call: Call::Migrate { contract: f, code_id: c }, funds: vec![] });
+            if rec.outcome.is_ok() {
+                classes.push("adm:factory-migrated");
             }
         }
         if let Some((d, dec)) = fw.model.denoms.iter().next().map(|(d, v)| (d.clone(), *v)) {
